@@ -8,17 +8,34 @@
 (***************************************************************************)
 EXTENDS Store
 CONSTANT Depth
-VARIABLE hist
-svars == <<vars, hist>>
+VARIABLE hist,
+         sched      \* the class of the next step, drawn with RandomElement: TLC's simulator picks uniformly among
+                    \* ALL successors, which starves the actions with few parameters (Reconfigure, right-password logins)
+svars == <<vars, hist, sched>>
 
 Rec(pre) == [op |-> last'.op, name |-> last'.name, pw |-> last'.pw, adm |-> last'.adm, def |-> default',
              pre |-> pre, post |-> files', res |-> last'.res, eff |-> last'.eff]
+Classes == 1..24
+OkUsers == {u \in Users : Supported(files[u])}
+Class(k) ==
+    CASE k \in 1..3   -> \E n \in Names, p \in Pws, a \in BOOLEAN : Add(n, p, a)
+      [] k \in 4..6   -> IF OkUsers # {} THEN \E n \in OkUsers, p \in Pws : Update(n, p)
+                                         ELSE \E n \in Names, p \in Pws : Update(n, p)
+      [] k = 7        -> \E n \in Names, a \in BOOLEAN : SetAdmin(n, a)
+      [] k = 8        -> \E n \in Names : Remove(n)
+      [] k = 9        -> \E n \in Names, p \in Pws : Init_(n, p)
+      [] k = 10       -> (\E n \in Names : Exists(n)) \/ List \/ ListFull \/ Check
+      [] k \in 11..15 -> IF OkUsers # {} THEN \E n \in OkUsers : Auth(n, files[n].pw)      \* the right password
+                                         ELSE \E n \in Names, p \in Pws : Auth(n, p)
+      [] k \in 16..17 -> \E n \in Names, p \in Pws : Auth(n, p)
+      [] k \in 18..20 -> IF Cardinality(Defaults) > 1 THEN \E d \in Defaults : Reconfigure(d) ELSE ApiNext
+      [] k = 21       -> \E u \in Users, f \in FileStates : ExternalPut(u, f) /\ f.kind # "ok"  \* sprinkle unsupported files
+      [] OTHER        -> ApiNext
 SimNext == /\ Len(hist) < Depth
-           /\ \/ ApiNext
-              \/ \E u \in Users, f \in FileStates : ExternalPut(u, f) /\ f.kind # "ok"     \* sprinkle unsupported files
-              \/ \E d \in Defaults : Reconfigure(d)
+           /\ Class(sched)
+           /\ sched' = RandomElement(Classes)
            /\ hist' = Append(hist, Rec(files))
-SimInit == Init /\ hist = <<>>
+SimInit == Init /\ hist = <<>> /\ sched = RandomElement(Classes)
 SimSpec == SimInit /\ [][SimNext]_svars
 PrintAtDepth == Len(hist) = Depth => PrintT(<<"H", ToJson(hist)>>)
 =============================================================================
